@@ -89,6 +89,7 @@ def exec_cases():
           '[1, 2.50, true, \'s\', [1], {1: 2}]', '{1: 2, \'a\': [3]}', '{one(): two(), t(): f()}', '[one(), two(), t()]', '[t(), boom(), two()]', '{one(): boom(), two(): 1}', '{boom(): one()}',
           'id(one()) + id(two())', 'cnt(one(), two(), t())', 'cnt(one(), boom(), two())', 'one() + boom() + two()', 'boom() + one()', 't() || two()', 't() || boom()', 'f() && boom()', 'f() && t()', 't() || 1/0 > 0', 'one() - two()', 'two() % one()',
           'one', 'one + two', 'nope', 'nope == nope', 'nope()', 'min(one, two())',
+          'one += two()', 'one = two()', 'one -= id(two()); one', 'x = 1; one *= cnt(x = 5, two()); [x, one]', 't = f() ? one() : two(); t', 'boom = one()', 'boom += one()', 'one += boom()',
           'boom', 'cnt(boom, two())', 'id(boom)', '[one, boom, two()]', '{one: boom}', 'boom + one()', 'one() + boom', 'true ? boom : 1', 'false ? boom : two()', 'boom ? 1 : 2', 'x = 1; y = boom; z = two(); 4', 'x = boom', '-boom', 'boom++', 'cnt(one, two, t)', 't ? one : two',
           'x = 1', 'x = 1; x', 'x = 1; y = x + 1; y', 'x = 1; x += 2; x', 'x = 6; x -= 1; x *= 3; x %= 4; x', 'x = 8; x /= 2; x', 'x = 6; x &= 3; x |= 8; x ^= 1; x', 'x = y = 3', 'x = 1; x = true; x', 'x += 1', 'x = 1; x += true', 'x = 1; x += true; x',
           '1 = 2', '(x) = 2; x', 'f() = 1', "x = 1; boom(); y = 2", 'x = 1; y = boom(); x', 'x = one(); y = two(); [y, x]', 'x = 1; x += ((x = 10) == 0 ? 1 : 2); x', 'x = 1; x = x + (x = 5) ; x', 'x = 2; [x, x = 3, x]', 'a = 1; [1/0, a = 2, two()]', 'a = 1; a',
